@@ -1,18 +1,94 @@
-// xquorum prints CalculateQuorum(0..255) as compiled into the explorer backend, i.e. from the
-// node module version pinned by explorer-backend/go.mod (not ../node).
+// xquorum prints, as compiled into the explorer backend (node module version pinned by explorer-backend/go.mod,
+// not ../node): CalculateQuorum(0..255), and the explorer's USE of it - for guardian sets of n members and VAAs
+// carrying s valid, ascending signatures of that set, whether the real gossip consumer (vaaGossipConsumer.Push with
+// the real GuardianSets and Deduplicator) hands the VAA on for persistence.
 package main
 
 import (
+	"context"
+	"crypto/ecdsa"
 	"encoding/json"
 	"os"
+	"time"
 
+	"github.com/alephium/wormhole-fork/explorer-backend/deduplicator"
+	"github.com/alephium/wormhole-fork/explorer-backend/guardiansets"
+	xproc "github.com/alephium/wormhole-fork/explorer-backend/processor"
+	"github.com/alephium/wormhole-fork/node/pkg/common"
 	"github.com/alephium/wormhole-fork/node/pkg/processor"
+	"github.com/alephium/wormhole-fork/node/pkg/vaa"
+	"github.com/eko/gocache/v3/cache"
+	"github.com/eko/gocache/v3/store"
+	ethcommon "github.com/ethereum/go-ethereum/common"
+	"github.com/ethereum/go-ethereum/crypto"
+	gocache "github.com/patrickmn/go-cache"
+	"go.uber.org/zap"
 )
+
+type use struct {
+	N, S   int
+	Queued bool
+	Err    string `json:",omitempty"`
+}
+
+func key(i int) *ecdsa.PrivateKey {
+	k, err := crypto.ToECDSA(crypto.Keccak256([]byte{'x', 'q', byte(i), byte(i >> 8)}))
+	if err != nil {
+		panic(err)
+	}
+	return k
+}
 
 func main() {
 	t := make([]int, 256)
 	for n := 0; n < 256; n++ {
 		t[n] = processor.CalculateQuorum(n)
 	}
-	json.NewEncoder(os.Stdout).Encode(t)
+	ks := make([]*ecdsa.PrivateKey, 255)
+	addrs := make([]ethcommon.Address, 255)
+	for i := range ks {
+		ks[i] = key(i)
+		addrs[i] = crypto.PubkeyToAddress(ks[i].PublicKey)
+	}
+	var uses []use
+	seq := uint64(0)
+	for _, n := range []int{1, 2, 3, 4, 5, 6, 7, 8, 9, 10, 11, 12, 13, 14, 15, 16, 17, 18, 19, 20, 21, 30, 63, 64, 66, 99, 128, 129, 192, 254, 255} {
+		q := 2*n/3 + 1
+		var ss []int
+		if n <= 21 {
+			for s := 0; s <= n; s++ {
+				ss = append(ss, s)
+			}
+		} else {
+			ss = []int{1, n / 2, q - 2, q - 1, q, q + 1, n}
+		}
+		gsC := make(chan *common.GuardianSet, 1024)
+		gs := guardiansets.NewGuardianSets([]*common.GuardianSet{{Index: 0, Keys: addrs[:n]}}, "/nonexistent/verif.ipc", zap.NewNop(), time.Hour, ethcommon.Address{}, gsC)
+		for _, s := range ss {
+			if s < 0 || s > n {
+				continue
+			}
+			seq++
+			v := &vaa.VAA{Version: 1, Timestamp: time.Unix(1700000000, 0), Sequence: seq, EmitterChain: 2, TargetChain: 255, Payload: []byte{1, byte(seq)}}
+			v.EmitterAddress[31] = 7
+			// the LAST s members sign (the highest indices: the ones most likely to be cut off by a wrong bound)
+			for i := n - s; i < n; i++ {
+				v.AddSignature(ks[i], uint8(i))
+			}
+			b, err := v.Marshal()
+			if err != nil {
+				panic(err)
+			}
+			c := gocache.New(5*time.Minute, 10*time.Minute)
+			queue := make(chan *xproc.Message, 4)
+			cons := xproc.NewVAAGossipConsumer(gs, deduplicator.New(cache.New[bool](store.NewGoCache(c)), zap.NewNop()), queue, zap.NewNop())
+			u := use{N: n, S: s}
+			if err := cons.Push(context.Background(), v, b); err != nil {
+				u.Err = err.Error()
+			}
+			u.Queued = len(queue) > 0
+			uses = append(uses, u)
+		}
+	}
+	json.NewEncoder(os.Stdout).Encode(map[string]interface{}{"quorum": t, "use": uses})
 }
